@@ -421,7 +421,7 @@ class Rule(object):
             # None, or a type error that has just been reported: no value to range-check
             return
         float_val = float(node.content)
-        if float_val < minmax[0] or float_val > minmax[1]:
+        if not (minmax[0] <= float_val <= minmax[1]):
             msg = f'Node "{node.name}" content should be in range {minmax}'
             if errs is None:
                 raise MetapypeRuleError(msg)
@@ -445,7 +445,7 @@ class Rule(object):
             # None, or a type error that has just been reported: no value to range-check
             return
         float_val = float(node.content)
-        if float_val < 0:
+        if not float_val >= 0:
             msg = f'Node "{node.name}" content should be non-negative'
             if errs is None:
                 raise MetapypeRuleError(msg)
